@@ -75,6 +75,19 @@ proof fn lemma_nth_none<G>(mt: MatchType, gdef: Option<&GDEFTable>, s: Seq<G>, i
     }
 }
 
+/// consequences used by callers (unit C02_ctx): an n-step walk never goes backwards and, when n > 0, ends inside the run
+proof fn lemma_nth_bounds<G>(mt: MatchType, gdef: Option<&GDEFTable>, s: Seq<G>, i: int, n: nat, j: int)
+    requires is_nth(mt, gdef, s, i, n, Some(j))
+    ensures i <= j, n > 0 ==> (i < j && j < s.len())
+    decreases n
+{
+    if n > 0 {
+        let mid = choose|mid: Option<int>| #![auto] is_next(mt, gdef, s, i, mid) && (match mid { None => false, Some(k) => is_nth(mt, gdef, s, k, (n - 1) as nat, Some(j)) });
+        assert(mid is Some);
+        lemma_nth_bounds(mt, gdef, s, mid->Some_0, (n - 1) as nat, j);
+    }
+}
+
 impl MatchType {
     #[verifier::external_body]
     pub fn match_glyph<G: Glyph>(self, opt_gdef_table: Option<&GDEFTable>, glyph: &G) -> (r: bool)
@@ -139,6 +152,12 @@ impl MatchType {
     ensures
         // count == 0 returns the current index; otherwise the count-th non-skipped glyph after `index`
         r is Some ==> is_nth(self, opt_gdef_table, glyphs@, index as int, count as nat, Some(r->Some_0 as int)),
+        // derived (lemma_nth_bounds): the result is never before `index`; for count > 0 it is a later glyph of the run
+        r is Some ==> index <= r->Some_0,
+        r is Some && count == 0 ==> r->Some_0 == index,
+        r is Some && count > 0 ==> index < r->Some_0 && r->Some_0 < glyphs@.len(),
+//@ before Some(index)
+        proof { lemma_nth_bounds(self, opt_gdef_table, glyphs@, start, count as nat, index as int); }
 //@ end
 }
 
